@@ -24,6 +24,43 @@ def near(a, b):
     return abs(a - b) <= 1e-9 * max(1.0, abs(a), abs(b))
 
 
+def kswin_sensitive(out: Outcome, rng, p: dict, xs: list, runners: list) -> None:
+    """threshold-adjacent configurations: KSWIN's p-values do not depend on alpha (the window is never cut), so a first run yields the exact
+    p-value of every step; alpha is then set 3% above and 3% below the p-value of one step and the run repeated with the same generator
+    state - the verdict at that step must flip accordingly, i.e. any change of the p-value by a few percent becomes visible"""
+    fp = dets.full_params("KSWIN", p)
+    W, r = fp["min_num_instances"], fp["num_test_instances"]
+    np_seed = rng.randint(0, 2**31 - 1)
+    probe = dets.Runner("a", "KSWIN", p)
+    if probe.det is None:
+        return
+    np.random.seed(np_seed)
+    pvals = {}
+    for t, x in enumerate(xs, 1):
+        probe.update(x)
+        if t >= W and "t=" in probe.lines[-1]:
+            win = xs[t - W: t]
+            tape = [int(i) for i in probe.lines[-1].split("t=")[1].split(",")]
+            pvals[t] = float(ks_2samp(np.array([win[: W - r][i] for i in tape]), np.array(win[W - r:]), alternative="two-sided", method="auto").pvalue)
+    cand = [t for t, q in pvals.items() if 1e-6 < q < 0.9]
+    if not cand:
+        return
+    t_star = rng.choice(cand)
+    for factor in (1.03, 0.97):
+        q = dict(p, alpha=pvals[t_star] * factor)
+        run = dets.Runner("a", "KSWIN", q)      # (constructing the configuration re-seeds NumPy's generator: seed afterwards)
+        np.random.seed(np_seed)
+        for t, x in enumerate(xs[:t_star], 1):
+            run.update(x)
+        rep = {"class": "KSWIN", "params": q, "stream": xs[:t_star], "step": t_star, "numpy_seed": np_seed, "kind": "sensitive"}
+        want = factor > 1
+        if run.err is None and bool(run.det.drift) != want:
+            out.violation(f"KSWIN: with alpha set {'above' if want else 'below'} the exact KS p-value {pvals[t_star]!r} of step {t_star} (alpha={q['alpha']!r}) "
+                          f"drift={bool(run.det.drift)}", rep)
+        runners.append(run)
+        out.case({"class": "KSWIN", "sensitive": factor, "W": W, "r": r, "t": t_star}, nontrivial=True)
+
+
 def kswin_case(out: Outcome, rng, p: dict, xs: list, runners: list) -> None:
     fp = dets.full_params("KSWIN", p)
     W, r, alpha = fp["min_num_instances"], fp["num_test_instances"], fp["alpha"]
@@ -139,6 +176,12 @@ def run(out: Outcome) -> None:
         if not p:
             p = {"alpha": 0.01, "min_num_instances": 20, "num_test_instances": 5}
         kswin_case(out, rng, p, gen.real_stream(rng, rng.randint(p["min_num_instances"], 4 * p["min_num_instances"] + 20)), runners)
+    for i in range(16 if thorough else 6):
+        p = gen.rand_params(rng, "KSWIN") or {"alpha": 0.01, "min_num_instances": 20, "num_test_instances": 5}
+        if i % 2 == 0:
+            n_w = rng.choice([104, 120, 140])
+            p = {"alpha": 0.01, "min_num_instances": n_w, "num_test_instances": rng.randint(51, n_w // 2)}
+        kswin_sensitive(out, rng, p, gen.real_stream(rng, p["min_num_instances"] + rng.randint(5, 40)), runners)
     for seed in [0, 1, 31, 2**31 - 5] + ([7, 12345] if thorough else []):
         kswin_seed_case(out, rng, seed, gen.real_stream(rng, 80))
     for _ in range(3 * n):
